@@ -54,8 +54,9 @@ def project(pid, o):
             res.append((root, sorted(desc), {l: (i[0], sorted(i[1])) for l, i in insts.items()}))
         elif pid == "C10":
             def mask(l, props):
-                return {k: ("U" if v.startswith("U") else ("R" if v.startswith("R") and l >= CLONE_BASE else v))
-                        for k, v in props.items()}
+                # UniqueId values are compared exactly (labels: pool ids as given, regenerated ids by order of generation):
+                # an id regenerated although nothing in the DOM holds it means the subtree did not arrive "as built"
+                return {k: ("R" if v.startswith("R") and l >= CLONE_BASE else v) for k, v in props.items()}
             res.append((root, desc, {l: (i[0], i[1], i[2], i[3], mask(l, i[4])) for l, i in insts.items()}))
         elif pid == "C11":
             res.append({l: (i[0], i[1], i[2], i[3], {k: ("U" if v.startswith("U") else v) for k, v in i[4].items()})
